@@ -420,7 +420,10 @@ class Contract:
         self.axioms = dict(getattr(cls, "axioms", {}) or {})    # name -> statement of a trusted (unproved) axiom
         self.lemmas = dict(getattr(cls, "lemmas", {}) or {})
         # property id -> substrings: under that property only the obligations whose name contains one of them count
-        self.only = dict(getattr(cls, "only", {}) or {})    # name -> ("v1 v2 ...", universally valid formula)
+        self.only = dict(getattr(cls, "only", {}) or {})
+        # substrings of obligation names that are not obligations of this function (with the reason in the docstring),
+        # e.g. "safety.div" where the divisor is a numpy scalar: numpy division by zero yields nan / inf, never raises
+        self.ignore = list(getattr(cls, "ignore", []) or [])    # name -> ("v1 v2 ...", universally valid formula)
 
     # evaluation of a clause -------------------------------------------------
     def _env(self, interp, bound, extra=None):
